@@ -687,7 +687,12 @@ def rule_r8(ctx):
             v = lp.target.id
             for c in (x for x in ast.walk(lp) if isinstance(x, ast.Call)):
                 d = dotted_of(c.func) or ""
-                if not d or "." in d or not any(isinstance(a, ast.Name) and a.id == v for a in c.args):
+                if isinstance(c.func, ast.Attribute) and c.func.attr == "add" and isinstance(c.func.value, ast.Attribute) and not c.args \
+                        and ctx.typer.type_of(f, c.func.value.value) and any(a[0].startswith("proto") for a in ctx.typer.type_of(f, c.func.value.value)):
+                    # the emission itself: a new entry of a repeated proto field (this is what is left of an emitter helper
+                    # that the normal form expanded into the loop) - keyed by the field
+                    d = f"<proto>.{c.func.value.attr}.add"
+                elif not d or "." in d or not any(isinstance(a, ast.Name) and a.id == v for a in c.args):
                     continue
                 # membership guards between the call and the loop: `<v>.name (not) in <collection>`
                 defers = set()
